@@ -24,20 +24,23 @@ func DebugC20W(run *Run) {
 	ts, mg, _ := v.Base.Typesystem(bg, cs.Model)
 	wrong, errs, ok := 0, 0, 0
 	byEng := map[string]int{}
-	for i := 0; i < 6000; i++ {
+	engs := []string{"v1:weight2", "server", "v2:weight2", "server:v2", "v1:recursive", "v1:default", "v2:recursive", "v2:default"}
+	reqs := []Req{{O: Obj{"doc", "d2"}, R: "viewer", U: Subj{"user", "b", ""}}, {O: Obj{"group", "g0"}, R: "member", U: Subj{"user", "a", ""}}, {O: Obj{"doc", "d1"}, R: "viewer", U: Subj{"user", "a", ""}}}
+	for i := 0; i < 16000; i++ {
 		dl := []time.Duration{10 * time.Second, 300 * time.Millisecond, 3 * time.Millisecond, 300 * time.Microsecond, 100 * time.Microsecond}[r.Intn(5)]
 		ctx, cancel := context.WithTimeout(bg, dl)
 		if r.Intn(2) == 0 {
-			cds.Arm(1+r.Intn(12), cancel)
+			cds.Arm(1+r.Intn(40), cancel)
 		}
-		e := &CheckEv{Eng: []string{"v1:weight2", "server", "v2:weight2", "server:v2"}[i%4], O: Obj{"doc", "d2"}, R: "viewer", U: Subj{"user", "b", ""}, Ctx: Ctx{}}
+		q := reqs[r.Intn(len(reqs))]
+		e := &CheckEv{Eng: engs[i%len(engs)], O: q.O, R: q.R, U: q.U, Ctx: Ctx{}}
 		if e.Eng == "server:v2" {
 			v.Get("server:v2").RunCheck(ctx, e, ts, mg)
 		} else {
 			v.Base.RunCheck(ctx, e, ts, mg)
 		}
 		if e.Got == "F" {
-			byEng[e.Eng]++
+			byEng[e.Eng+" "+q.O.String()]++
 		}
 		cancel()
 		cds.Disarm()
